@@ -45,6 +45,22 @@ func main() {
 		os.Exit(3)
 	}
 	insts := c.Gen(*tier)
+	if *tier == "thorough" {
+		// second pass of the thorough tier: every scheduled instance once more, one deviation deeper; these
+		// come last, so the time budget cuts them first (reported as unfinished)
+		n := len(insts)
+		for i := 0; i < n; i++ {
+			in := insts[i]
+			if in.Root == nil || in.Bound < 1 || in.Bound > 2 {
+				continue
+			}
+			in.Name += "/deeper"
+			in.Bound++
+			in.StartBound = in.Bound
+			in.PruneFrom = 0
+			insts = append(insts, in)
+		}
+	}
 	if *list {
 		out := struct {
 			N           int      `json:"n"`
@@ -119,7 +135,7 @@ func runInstance(i int, in checks.Instance, dl time.Time) (r vp.InstResult) {
 		}
 		return
 	}
-	for b := 0; b <= in.Bound; b++ {
+	for b := in.StartBound; b <= in.Bound; b++ {
 		// Fingerprint pruning is exact for data-race-free code only; an instance may ask for its lower bounds
 		// to be explored without it (PruneFrom).
 		e := &mc.Explorer{Bound: b, Root: in.Root, MaxSteps: in.MaxSteps, Deadline: dl, UseCache: !in.NoCache && b >= in.PruneFrom}
@@ -200,7 +216,7 @@ func doReplay(path string) int {
 	insts := c.Gen(rp.Tier)
 	idx := -1
 	for i, in := range insts {
-		if in.Name == rp.Instance {
+		if in.Name == rp.Instance || in.Name+"/deeper" == rp.Instance {
 			idx = i
 		}
 	}
